@@ -127,6 +127,22 @@ def _translate_method(cls_name, fields, fn: ast.FunctionDef):
                 raise Untranslatable(f"assignment {ast.unparse(st)}")
             tr2 = ExprTranslator({**tr.names, tgt: val}, tr.self_fields, tr.funcs, tr.envs)
             return tr_block(rest, tr2, opt_bound)
+        # if self.<field> == 0: <block ending in return>   (followed by the general case)
+        if (
+            isinstance(st, ast.If)
+            and rest
+            and not st.orelse
+            and isinstance(st.test, ast.Compare)
+            and len(st.test.ops) == 1
+            and isinstance(st.test.ops[0], ast.Eq)
+            and _is_self_attr(st.test.left)
+            and kinds.get(st.test.left.attr) == "expr"
+            and isinstance(st.test.comparators[0], ast.Constant)
+            and st.test.comparators[0].value == 0
+            and not isinstance(st.test.comparators[0].value, bool)
+        ):
+            return (f"if is_zero_lit f_{st.test.left.attr} then {tr_block(st.body, tr, opt_bound)} "
+                    f"else {tr_block(rest, tr, opt_bound)}")
         if isinstance(st, ast.If) and not rest:
             t = st.test
             # self.f is not None
